@@ -125,11 +125,17 @@ func (o *objectGoSlice) shrink(size int) {
 	*o.data = (*o.data)[:size]
 }
 
-func (o *objectGoSlice) putIdx(idx int, v Value, throw bool) {
+func (o *objectGoSlice) putIdx(idx int, v Value, throw bool) bool {
 	if idx >= len(*o.data) {
+		if int64(idx) >= math.MaxUint32 {
+			// not an array index (the maximum array length is 2^32-1)
+			o.val.runtime.typeErrorResult(throw, "Can't set property '%d' on Go slice", idx)
+			return false
+		}
 		o.grow(idx + 1)
 	}
 	(*o.data)[idx] = v.Export()
+	return true
 }
 
 func (o *objectGoSlice) putLength(v uint32, throw bool) bool {
@@ -153,7 +159,7 @@ func (o *objectGoSlice) setOwnIdx(idx valueInt, val Value, throw bool) bool {
 				return res
 			}
 		}
-		o.putIdx(i, val, throw)
+		return o.putIdx(i, val, throw)
 	} else {
 		name := idx.string()
 		if res, ok := o._setForeignStr(name, nil, val, o.val, throw); !ok {
@@ -163,7 +169,6 @@ func (o *objectGoSlice) setOwnIdx(idx valueInt, val Value, throw bool) bool {
 			return res
 		}
 	}
-	return true
 }
 
 func (o *objectGoSlice) setOwnStr(name unistring.String, val Value, throw bool) bool {
@@ -173,7 +178,7 @@ func (o *objectGoSlice) setOwnStr(name unistring.String, val Value, throw bool) 
 				return res
 			}
 		}
-		o.putIdx(idx, val, throw)
+		return o.putIdx(idx, val, throw)
 	} else {
 		if name == "length" {
 			return o.putLength(o.val.runtime.toLengthUint32(val), throw)
@@ -185,7 +190,6 @@ func (o *objectGoSlice) setOwnStr(name unistring.String, val Value, throw bool) 
 			return res
 		}
 	}
-	return true
 }
 
 func (o *objectGoSlice) setForeignIdx(idx valueInt, val, receiver Value, throw bool) (bool, bool) {
@@ -223,8 +227,7 @@ func (o *objectGoSlice) defineOwnPropertyIdx(idx valueInt, descr PropertyDescrip
 			}
 			val = _undefined
 		}
-		o.putIdx(i, val, throw)
-		return true
+		return o.putIdx(i, val, throw)
 	}
 	o.val.runtime.typeErrorResult(throw, "Cannot define property '%d' on a Go slice", idx)
 	return false
@@ -242,8 +245,7 @@ func (o *objectGoSlice) defineOwnPropertyStr(name unistring.String, descr Proper
 			}
 			val = _undefined
 		}
-		o.putIdx(idx, val, throw)
-		return true
+		return o.putIdx(idx, val, throw)
 	}
 	if name == "length" {
 		return o.val.runtime.defineArrayLength(&o.lengthProp, descr, o.putLength, throw)
